@@ -71,6 +71,8 @@ const (
 	decodeMemLimit  = 64 << 20
 )
 
+var confirmedBalloon = map[string]bool{}
+
 var (
 	guardOnce sync.Once
 	theGuard  *decodeGuard
@@ -115,6 +117,18 @@ func genC12(seed uint64, idx int, tier string) *Plan {
 		g.z.RRs = append(g.z.RRs, simdoh.RR{Name: in.Host, Type: simdoh.TypeA, TTL: 60, IP: g.v4()}, simdoh.RR{Name: in.Host, Type: simdoh.TypeAAAA, TTL: 60, IP: g.v6()})
 	}
 	g.finish()
+	big := idx%12 == 5
+	if big {
+		// a response of 1.5 .. 4 KiB: many address records, large ECH
+		// configurations, long target names
+		for i := 0; i < 12+r.IntN(12); i++ {
+			g.z.RRs = append(g.z.RRs, simdoh.RR{Name: in.Host, Type: simdoh.TypeA, TTL: 60, IP: g.v4()}, simdoh.RR{Name: in.Host, Type: simdoh.TypeAAAA, TTL: 60, IP: g.v6()})
+		}
+		for i := 0; i < 3; i++ {
+			g.z.RRs = append(g.z.RRs, simdoh.RR{Name: in.Host, Type: simdoh.TypeHTTPS, TTL: 60, Target: strings.Repeat("t", 40+i) + "." + strings.Repeat("u", 63) + ".test",
+				Svc: &simdoh.Svc{Priority: uint16(10 + i), ALPN: []string{"h2", "h3"}, ECH: core.Bytes(r, 300+r.IntN(500)), V4Hint: []string{g.v4(), g.v4()}, V6Hint: []string{g.v6()}}})
+		}
+	}
 	p.Zone = g.z
 	p.QType = uint16(core.Pick(r, []int{simdoh.TypeHTTPS, simdoh.TypeHTTPS, simdoh.TypeA, simdoh.TypeAAAA}))
 	p.Extra = core.Chance(r, 2, 3)
@@ -126,6 +140,10 @@ func genC12(seed uint64, idx int, tier string) *Plan {
 	p.Stride = 1
 	if tier != "thorough" {
 		p.Masks = p.Masks[:3]
+	}
+	if big {
+		p.Stride = 8
+		p.Extra = p.Extra && p.QType != simdoh.TypeHTTPS
 	}
 	p.CacheOff = core.Chance(r, 1, 2)
 	return &Plan{Kind: "mutate", Seed: seed, Mutate: p}
@@ -176,6 +194,21 @@ func genAdvLong(r interface {
 	IntN(int) int
 }, s int) []byte {
 	var b []byte
+	if r.IntN(4) == 0 {
+		// a ladder of pointers hidden in the content of a label, entered
+		// from behind: ... each hop points backwards, into the label
+		k := 2 + r.IntN(5)
+		b = append(b, byte(2*k))
+		b = append(b, 0xC0, 0x0C+byte(r.IntN(2)))
+		for i := 1; i < k; i++ {
+			b = append(b, 0xC0, byte(s+1+2*(i-1)))
+		}
+		b = append(b, 0xC0, byte(s+1+2*(k-1)))
+		if r.IntN(3) == 0 {
+			b[2] = byte(s + 1 + 2*(k-1)) // close the ladder into a cycle
+		}
+		return b
+	}
 	n := 2 + r.IntN(5)
 	small := func() byte {
 		if r.IntN(3) == 0 {
@@ -391,6 +424,12 @@ func judgeDecode(g *decodeGuard, body []byte, quickAbort bool) decodeVerdict {
 	if o.Aborted != abortNone {
 		n := 1
 		site := o.Site
+		// An allocation overrun at a site where this process has already
+		// confirmed one three times is not measured again (a time overrun
+		// always is: it could be the machine).
+		if o.Aborted == abortMem && confirmedBalloon[site] {
+			quickAbort = true
+		}
 		if !quickAbort {
 			for i := 0; i < 2; i++ {
 				o2 := run()
@@ -406,9 +445,14 @@ func judgeDecode(g *decodeGuard, body []byte, quickAbort bool) decodeVerdict {
 			what := fmt.Sprintf("still running after %v", decodeTimeLimit)
 			if o.Aborted == abortMem {
 				st = "balloon"
+				confirmedBalloon[site] = true
 				what = fmt.Sprintf("allocated more than %d MiB (after %v)", decodeMemLimit>>20, o.Elapsed.Round(time.Millisecond))
 			}
-			return decodeVerdict{status: st, site: site, detail: fmt.Sprintf("dns.DecodeMessage of a %d-octet message %s, in 3 of 3 measurements", len(body), what)}
+			times := "in 3 of 3 measurements"
+			if quickAbort {
+				times = "measured once (same site confirmed in 3 of 3 measurements earlier in this process)"
+			}
+			return decodeVerdict{status: st, site: site, detail: fmt.Sprintf("dns.DecodeMessage of a %d-octet message %s, %s", len(body), what, times)}
 		}
 		o = run()
 		if o.Aborted != abortNone {
